@@ -262,6 +262,7 @@ pub fn ast_tree(e: &E) -> Option<Tree> {
                 Bin::Access => "Access",
                 Bin::Apply => "Apply",
                 Bin::ApplyTo => "ApplyTo",
+                Bin::Concat => "Concatenation",
             };
             Tree::Bin(d.into(), b.text().into(), Box::new(ast_tree(l)?), Some(Box::new(ast_tree(r)?)))
         }
